@@ -9,7 +9,9 @@ ids = args or sorted(os.listdir(os.path.join(HERE, "seeded")))
 rc_all = 0
 if ISO:
     # run in a private copy of /verif against a private worktree of /repo: nothing shared is touched
-    COPY, WT = "/tmp/verif-seedrun", "/tmp/repo-seedrun"
+    COPY, WT = "/tmp/verif-seedrun-%d" % os.getpid(), "/tmp/repo-seedrun-%d" % os.getpid()
+    SEEDS = [a.split("=")[1] for a in sys.argv[1:] if a.startswith("--seeds=")]
+    SEEDS = SEEDS[0].split(",") if SEEDS else ["0"]
     subprocess.run(["rsync", "-a", "--delete", "--exclude", ".git", "--exclude", "replay", HERE + "/", COPY + "/"], check=True)
     subprocess.run(["git", "-C", "/repo", "worktree", "remove", "--force", WT], capture_output=True)
     subprocess.check_call(["git", "-C", "/repo", "worktree", "add", "--detach", WT, "HEAD", "-q"])
@@ -24,9 +26,9 @@ if ISO:
         if a.returncode:
             print(sid, "PATCH-DOES-NOT-APPLY", a.stderr.strip()[:200]); rc_all = 1; continue
         try:
-            for prop in meta.get("checks") or [meta["property"]]:
+            for prop, seed in [(pp, sd) for pp in (meta.get("checks") or [meta["property"]]) for sd in SEEDS]:
                 p = subprocess.run([os.path.join(COPY, "check"), prop], capture_output=True, text=True, cwd=COPY,
-                                   env=dict(os.environ, PDS_REPO=WT), timeout=2400)
+                                   env=dict(os.environ, PDS_REPO=WT, VERIF_SEED=seed), timeout=2400)
                 v = [l for l in p.stdout.splitlines() if l.startswith("VIOLATION")]
                 if v and not v[0].endswith("no-failing-input-found"):
                     res = "caught (replay with failing input)"
@@ -34,10 +36,12 @@ if ISO:
                     res = "caught-no-failing-input-found"
                 else:
                     res = "MISSED"; rc_all = 1
-                print("%-10s %-4s rc=%d %s | %s" % (sid, prop, p.returncode, res, (v[0] if v else (p.stdout.strip().splitlines() or ["?"])[-1])[:160]), flush=True)
+                print("%-10s %-4s seed=%s rc=%d %s | %s" % (sid, prop, seed, p.returncode, res, (v[0] if v else (p.stdout.strip().splitlines() or ["?"])[-1])[:160]), flush=True)
         finally:
             subprocess.run(["git", "-C", WT, "checkout", "--", "."])
     subprocess.run(["git", "-C", "/repo", "worktree", "remove", "--force", WT], capture_output=True)
+    import shutil as _sh
+    _sh.rmtree(COPY, ignore_errors=True)
     sys.exit(rc_all)
 for sid in ids:
     d = os.path.join(HERE, "seeded", sid)
